@@ -112,7 +112,16 @@ def _run(ctx, rep):
         rep.ob('forgery', ht + ' field private', adt['variants'][0]['fields'][0]['vis'] != 'pub', 'the handle field of %s is public: callers can forge offsets' % ht)
         sites = adt_sites(f, ht)
         derived_ok = {d for d in sites if f.bodies[d].get('derived')}
-        extra = sorted(sites - set(makers) - derived_ok)
+        extra = sites - set(makers) - derived_ok
+        # a crate-private constructor helper of the handle type is not a forgery site when every call that can reach it
+        # comes from an add path (or from another such helper)
+        from rules.C01 import callers_of
+        helpers = {d for d in extra if f.bodies[d].get('vis') != 'pub' and not f.bodies[d].get('trait')}
+        for _ in range(3):
+            ok_h = {h for h in helpers if callers_of(f, {h}) <= (set(makers) | helpers | derived_ok)}
+            if ok_h == helpers: break
+            helpers = ok_h
+        extra = sorted(extra - helpers)
         rep.ob('forgery', ht + ' construction sites', not extra, '%s is constructed outside the add paths: %s' % (ht, extra), detail={'sites': sorted(sites)})
         ctor_fns = [b['def'] for n, b in fns_of(f, ht).items() if is_pub(b) and classify(b, ht) == 'ctor']
         rep.ob('forgery', ht + ' has no public constructor', not ctor_fns, 'public constructors of %s: %s' % (ht, ctor_fns))
